@@ -53,8 +53,23 @@ cloned in that mode: the handle is the only owner of whatever the clones share, 
 `mem::replace` idiom, a clone of a readied handle. The model is indifferent (theorem caller_mode_irrelevant);
 15% of the cases use `via=template` for every request (seeded/C11-w4m1).
 
+`arrive … unwind=1` (world.rs, generic): the call future is owned by the frame that polls it (a spawned task, an
+`async` block awaiting it, a `select!` arm): a panic raised by its own poll destroys it DURING that unwinding
+(`std::thread::panicking()` is true in its destructors). Default: the panic is caught around the `poll` call alone and
+the future is dropped afterwards. `drop c unwind=1`: the unfinished future is destroyed because its owner panics for a
+reason of its own. The model gives one answer for both ways (theorems leader_panic_frees_key_at_once,
+panicked_leader_waiter_fails_at_next_poll, caller_behaviour_irrelevant, unwinding_drop_is_a_drop); seeded/C11-w5m1.
+
+Header `ctor=builder|new|config|confignew|service`: the construction path of the layer (`CoalesceLayer::builder`,
+`::new`, `::with_config` of a built / a `CoalesceConfig::new` configuration, or no layer: `CoalesceService::new`).
+`arrive … svc=<k>`: the request goes to service k, built lazily from the SAME layer value (even k) or from a clone of the
+layer taken then (odd k); all services wrap clones of one back-end. Every service has an in-flight table of its own: a
+request to service j never joins a call in flight on service i (theorems services_do_not_share,
+service_steps_are_independent); the monitors treat (service, key) as the key. `arrive … eclone=1`: the caller looks at a
+clone of what it received (`CoalesceError::clone`).
+
 Meta lines of the harness used by the monitors (never compared with the model):
-  #arrive c key   adapter, just before `Service::call` (a leader's `inner_call` follows at once)
+  #arrive c key   adapter, just before `Service::call` (a leader's `inner_call` follows at once); `key@k` on service k > 0
   #fp c t         first poll of caller c
   #wake c t,..    a re-poll of c whose waker has fired since the previous poll
   #poll c         adapter, every poll of a call future that made no inner call in `call()` (a waiter)
@@ -71,6 +86,14 @@ from gen.util import kvs, tparse, pick_outcome
 
 # requests arriving while a dropped leader's inner future is being destroyed (`manual ondrop`)
 REENTRANT_DROP = True
+
+# `arrive … clonepanic=1`: the value the request's inner call produces panics the first time it is cloned (the leader's
+# completing poll clones it for the waiters and unwinds). OPEN FINDING on the tree this was written against
+# (notes/strengthen-coalesce-w5.md): `registration.key.take()` precedes the clone, so the key stays registered for ever.
+# Off by default until the repair (notes/strengthen-coalesce-w5-proposed-repair.diff) is in: with VERIF_C11_CLONE_PANIC=1
+# the generator emits the word on 8% of the arrivals and corpus/coalesce/clone_panic_wedges_key.ops is run; the model
+# (Op.bomb / clonePanic, theorem leader_clone_panic_frees_key_at_once) specifies the conforming behaviour.
+CLONE_PANIC = os.environ.get("VERIF_C11_CLONE_PANIC", "0") == "1"
 
 
 # ----------------------------------------------------------------------------- generator
@@ -198,6 +221,29 @@ def gen(rng, tier):
         if os.environ.get("VERIF_C11_FINISH", "1") != "0":
             return gen_finish(rng, tier)
     nkeys = rng.choice([1, 1, 2, 2, 3])
+    # construction path of the layer; number of services built from the one layer value (service, key) is the key
+    ctor = "builder" if rng.random() < 0.45 else rng.choice(["new", "new", "config", "confignew", "service"])
+    header = "coalesce" if ctor == "builder" and rng.random() < 0.9 else "coalesce ctor=%s" % ctor
+    nsvc = 1 if rng.random() < 0.6 else rng.choice([2, 2, 3, 4])
+    hot_svc = rng.randrange(nsvc)
+    # how the callers own their call futures: a panic raised by a poll is caught around that poll and the future is
+    # dropped afterwards (the old cases) / the future is owned by the polling frame and goes DURING the unwinding
+    r = rng.random()
+    p_unwind = 0.0 if r < 0.35 else 1.0 if r < 0.55 else rng.choice([0.3, 0.5, 0.8])
+
+    def svc_of():
+        if nsvc == 1:
+            return 0
+        return hot_svc if rng.random() < 0.6 else rng.randrange(nsvc)
+
+    def kw(K):
+        """the words naming (service, key)"""
+        return "key=%d%s" % (K[1], " svc=%d" % K[0] if K[0] > 0 or (nsvc > 1 and rng.random() < 0.2) else "")
+
+    def how():
+        """caller behaviour words"""
+        return (" unwind=1" if rng.random() < p_unwind else "") + (" eclone=1" if rng.random() < 0.25 else "")
+
     ncall = rng.randint(2, 8) if rng.random() < 0.85 else rng.randint(1, 12)
     ops = []
     now = 0
@@ -251,12 +297,13 @@ def gen(rng, tier):
         if nxt <= ncall and (r < 0.30 or not sim.live) and (not gone[0] or not sim.live or rng.random() < 0.3):
             c = nxt
             nxt += 1
-            key = hot if rng.random() < 0.7 else rng.randint(1, nkeys)
+            key = (svc_of(), hot if rng.random() < 0.7 else rng.randint(1, nkeys))
             lat = rng.choice([0, 0, 1, 5, 10, 10, rng.randint(0, 40)])
             out = pick_outcome(rng, w_ok=5, w_err=2, w_panic=2, w_never=1)
             cp = rng.random() < 0.12        # the inner service's call() itself panics (if this request leads)
             keep = rng.random() < 0.25      # the caller holds on to the finished future and drops it later (`release`)
-            ops.append("arrive %d key=%d inner=%d:%s%s%s%s" % (c, key, lat, out, " callpanic=1" if cp else "", " keep=1" if keep else "", via()))
+            clp = rng.random() < 0.08 and CLONE_PANIC   # the value of its inner call cannot be cloned (drawn either way)
+            ops.append("arrive %d %s inner=%d:%s%s%s%s%s%s" % (c, kw(key), lat, out, " callpanic=1" if cp else "", " clonepanic=1" if clp else "", " keep=1" if keep else "", via(), how()))
             arrived.append(c)
             if gone[0]:
                 continue                    # no handle to call through: refused (`noop`), and so is any poll/drop of it
@@ -292,13 +339,13 @@ def gen(rng, tier):
                 lat = rng.choice([0, 0, 5, 10])
                 out = pick_outcome(rng, w_ok=5, w_err=2, w_panic=1, w_never=1)
                 ops.append("manual ondrop c=%d by=%d inner=%d:%s%s" % (c, c2, lat, out, " thread=1" if rng.random() < 0.5 else ""))
-                ops.append("drop %d" % c)
-                key = sim.info[c][0] if c in sim.info else hot
+                ops.append("drop %d%s" % (c, " unwind=1" if rng.random() < 0.5 * p_unwind else ""))
+                key = sim.info[c][0] if c in sim.info else (svc_of(), hot)
                 if not gone[0] and c in leaders:
                     sim.arrive(c2, key, now, lat, out)      # onto the dying leader
                 sim.drop(c)
                 if rng.random() < 0.9:
-                    ops.append("arrive %d key=%d inner=%d:%s%s" % (c2, key, lat, out, via()))
+                    ops.append("arrive %d %s inner=%d:%s%s%s" % (c2, kw(key), lat, out, via(), how()))
                     arrived.append(c2)
                     if not gone[0] and c not in leaders:
                         sim.arrive(c2, key, now, lat, out)
@@ -307,7 +354,8 @@ def gen(rng, tier):
                         ops.append("poll %d" % c2)
                         sim.poll(c2, now)
                 continue
-            ops.append("drop %d" % c)
+            # … some of them because the owner of the future panics (destroyed during that unwinding)
+            ops.append("drop %d%s" % (c, " unwind=1" if rng.random() < 0.6 * p_unwind else ""))
             sim.drop(c)
         elif r < 0.93:
             fut = [m for m in marks if m >= now]
@@ -325,7 +373,7 @@ def gen(rng, tier):
             for c in list(sim.live):
                 sim.poll(c, now)
         else:
-            ops.append("arrive %d key=%d" % (rng.choice(arrived) if arrived else 1, hot))   # duplicate arrival: noop
+            ops.append("arrive %d %s" % (rng.choice(arrived) if arrived else 1, kw((svc_of(), hot))))   # duplicate arrival: noop
     # tail: finish or kill the leaders, poll the waiters, then a fresh call on each key
     tail = rng.random()
     if tail < 0.4:
@@ -343,7 +391,7 @@ def gen(rng, tier):
     elif tail < 0.7:
         for c in [c for c in sim.live if c in sim.info]:
             if rng.random() < 0.7:
-                ops.append("drop %d" % c)
+                ops.append("drop %d%s" % (c, " unwind=1" if rng.random() < 0.6 * p_unwind else ""))
                 sim.drop(c)
         order = list(sim.live)
         rng.shuffle(order)
@@ -354,12 +402,17 @@ def gen(rng, tier):
         handle_drop()
     if rng.random() < (0.25 if gone[0] else 0.6):
         base = 100
-        for k in range(1, nkeys + 1):
-            if rng.random() < 0.25:
-                ops.append("arrive %d key=%d inner=0:ok callpanic=1%s" % (base + 10 + k, k, via()))
-            ops.append("arrive %d key=%d inner=0:ok%s" % (base + k, k, via()))
-        for k in range(1, nkeys + 1):
-            ops.append("poll %d" % (base + k))
+        fresh = []
+        for sv in range(nsvc):
+            if sv > 0 and rng.random() < 0.3:
+                continue
+            for k in range(1, nkeys + 1):
+                if rng.random() < 0.25:
+                    ops.append("arrive %d %s inner=0:ok callpanic=1%s" % (base + 50 + 10 * sv + k, kw((sv, k)), via()))
+                ops.append("arrive %d %s inner=0:ok%s%s" % (base + 10 * sv + k, kw((sv, k)), via(), how()))
+                fresh.append(base + 10 * sv + k)
+        for c in fresh:
+            ops.append("poll %d" % c)
         if rng.random() < 0.4 and settles < 2:
             ops.append("settle")
     if kept and rng.random() < 0.7:
@@ -367,12 +420,13 @@ def gen(rng, tier):
         base = 200
         ops.append("settle")
         lat = rng.choice([10, 20])
-        ops.append("arrive %d key=%d inner=%d:ok%s" % (base + 1, hot, lat, via()))
-        ops.append("arrive %d key=%d inner=0:ok%s" % (base + 2, hot, via()))
+        hk = kw((hot_svc, hot))
+        ops.append("arrive %d %s inner=%d:ok%s%s" % (base + 1, hk, lat, via(), how()))
+        ops.append("arrive %d %s inner=0:ok%s%s" % (base + 2, hk, via(), how()))
         ops.append("poll %d" % (base + 2))
         for c in kept:
             ops.append("release %d" % c)
-        ops.append("arrive %d key=%d inner=0:ok%s" % (base + 3, hot, via()))
+        ops.append("arrive %d %s inner=0:ok%s" % (base + 3, hk, via()))
         ops.append("poll %d" % (base + 3))
         ops.append("adv %d" % lat)
         ops.append("settle")
@@ -380,7 +434,7 @@ def gen(rng, tier):
         handle_drop()
         if rng.random() < 0.5:
             ops.append("settle")
-    return {"header": "coalesce", "ops": ops}
+    return {"header": header, "ops": ops}
 
 
 def canon(lines):
@@ -398,7 +452,9 @@ def _keys(case, meta=None):
     for o in case["ops"]:
         w = o.split()
         if len(w) >= 2 and w[0] == "arrive" and w[1] not in keys:
-            keys[w[1]] = kvs(o).get("key", "0")
+            kv = kvs(o)
+            # (service, key) is the key: every service built from the layer has an in-flight table of its own
+            keys[w[1]] = kv.get("key", "0") + ("@" + kv["svc"] if kv.get("svc", "0") != "0" else "")
     for _, m in (meta or []):
         w = m.split()
         if w[0] == "#ondrop" and w[1] in keys:
@@ -417,6 +473,19 @@ def _callpanic(case):
             if kvs(o).get("callpanic") == "1":
                 cp.add(w[1])
     return cp
+
+
+def _clonepanic(case):
+    """callers whose inner call (if they lead one) yields a value that panics when the leader clones it"""
+    cl = set()
+    seen = set()
+    for o in case["ops"]:
+        w = o.split()
+        if len(w) >= 2 and w[0] == "arrive" and w[1] not in seen:
+            seen.add(w[1])
+            if kvs(o).get("clonepanic") == "1":
+                cl.add(w[1])
+    return cl
 
 
 def _timeline(lines, meta):
@@ -517,11 +586,13 @@ def mon_share(case, lines, meta):
     panicked), never before the leader has finished; otherwise it leads a fresh call at once"""
     keys = _keys(case, meta)
     cpanic = _callpanic(case)
+    clpanic = _clonepanic(case)
     ev = _timeline(lines, meta)
     cur = {}          # key -> (leader caller, serial) in flight
     joined = {}       # waiter -> leader
     fate = {}         # leader -> ("ok",k) | ("err",kind,k) | ("cancelled",)
     own = {}          # leader -> rendering of its own result
+    ever = set()      # keys that have had a leader
     for i, (kind, w, t) in enumerate(ev):
         if not w:
             continue
@@ -539,17 +610,24 @@ def mon_share(case, lines, meta):
                 if c in cpanic and nx and nx[0] == "line" and nx[1][:3] == ["result", c, "panic"]:
                     own[c] = "panic"      # it led, and the inner service's call() panicked at once: nothing is in flight
                     continue
-                return "caller %s arrived with no call in flight for key %s but did not start a fresh inner call" % (c, key)
+                return ("caller %s arrived with no call in flight for key %s but did not start a fresh inner call%s"
+                        % (c, key, " (the key is still registered by a leader that has gone: it is never usable again)" if key in ever else ""))
         elif kind == "line" and w[0] == "inner_call":
             c, k = w[1], w[2]
             if c in joined:
                 return "waiter %s caused an inner call (%s)" % (c, k)
             cur[keys.get(c)] = (c, k)
+            ever.add(keys.get(c))
         elif kind == "line" and w[0] == "inner_done":
             c, k, o = w[1], w[2], w[3]
             if cur.get(keys.get(c), (None,))[0] == c:
                 del cur[keys.get(c)]
-            if o == "ok":
+            if c in clpanic and o != "panic":
+                # the inner call finished, but the leader panics while cloning the value for the waiters: the leading
+                # request panicked, its waiters are to get leader_cancelled
+                fate[c] = ("cancelled",)
+                own[c] = "panic"
+            elif o == "ok":
                 fate[c] = ("ok", k)
                 own[c] = "ok:%s" % k
             elif o.startswith("err"):
@@ -587,7 +665,7 @@ def mon_prompt(case, lines, meta):
     ev = _timeline(lines, meta)
     cur = {}
     joined = {}
-    finished = set()
+    finished = {}         # leader -> how it went
     armed = set()
     resolved = set()
     for i, (kind, w, t) in enumerate(ev):
@@ -609,14 +687,16 @@ def mon_prompt(case, lines, meta):
             nx = ev[i + 1] if i + 1 < len(ev) else None
             res = bool(nx and nx[0] == "line" and nx[1][:2] == ["result", c])
             if joined[c] in finished and not res:
-                return "waiter %s was polled after its leader %s had gone but did not resolve at that poll" % (c, joined[c])
+                return ("waiter %s (key %s) was polled after its leader %s had gone (%s) but did not resolve at that poll: it is still "
+                        "waiting for a call that no longer exists" % (c, keys.get(c), joined[c], finished[joined[c]]))
         elif kind == "line" and w[0] == "inner_call":
             cur[keys.get(w[1])] = w[1]
         elif kind == "line" and w[0] in ("inner_done", "inner_drop"):
             c = w[1]
             if cur.get(keys.get(c)) == c:
                 del cur[keys.get(c)]
-            finished.add(c)
+            finished[c] = ("its future was dropped" if w[0] == "inner_drop" else
+                           "its inner call panicked" if w[3:4] == ["panic"] else "its inner call finished")
         elif kind == "line" and w[0] == "result":
             resolved.add(w[1])
     return None
@@ -700,17 +780,44 @@ def transitions(case, lines, meta=None):
                 tags.append("sole-handle-overlap")
         elif w[:2] == ["manual", "ondrop"]:
             only_template = False
+    # construction path, services, caller behaviour
+    hdr = kvs(case.get("header", ""))
+    if hdr.get("ctor", "builder") != "builder":
+        tags.append("ctor-%s" % hdr["ctor"])
+    first = {}
+    for o in case["ops"]:
+        w = o.split()
+        if len(w) >= 2 and w[0] == "arrive" and w[1] not in first:
+            first[w[1]] = kvs(o)
+    unwinding_drops = set()
+    for i, m in (meta or []):
+        w = m.split()
+        if w[0] == "#drop" and w[-1] == "unwinding" and i >= 0:
+            unwinding_drops.add(w[1])
+    flying = {}           # (service, key) -> leader
+    done_ok = set()
     for l in lines:
         _, w = tparse(l)
         if not w:
             continue
+        if w[0] == "inner_done" and w[3] != "panic":
+            done_ok.add("inner_done %s" % w[1])
         if w[0] == "inner_call":
             leaders.add(w[1])
             key = keys.get(w[1])
             tags.append("lead-again" if key in led_keys else "lead")
             led_keys.add(key)
+            raw, _, sv = (key or "").partition("@")
+            if sv:
+                tags.append("service-odd-from-layer-clone" if int(sv) % 2 else "service-even-from-layer")
+            if any(k2 != key and k2.partition("@")[0] == raw for k2 in flying):
+                tags.append("other-service-leads-same-key")     # the same key is in flight on another service
+            flying[key] = w[1]
+        elif w[0] == "inner_done":
+            flying.pop(keys.get(w[1]), None)
         elif w[0] == "inner_drop":
-            tags.append("leader-dropped")
+            flying.pop(keys.get(w[1]), None)
+            tags.append("leader-dropped-unwinding" if w[1] in unwinding_drops else "leader-dropped")
         elif w[0] == "result":
             who = "leader" if w[1] in leaders else "waiter"
             x = w[2]
@@ -719,13 +826,21 @@ def transitions(case, lines, meta=None):
                 continue
             what = "ok" if x.startswith("ok") else "panic" if x == "panic" else "cancelled" if x == "err:leader_cancelled" else "err"
             tags.append("%s-%s" % (who, what))
+            kv = first.get(w[1], {})
+            if who == "leader" and what == "panic" and kv.get("clonepanic") == "1" and "inner_done %s" % w[1] in done_ok:
+                tags.append("leader-clone-panic")
+            if who == "leader" and what == "panic":
+                # the future went DURING the unwinding of the panic its poll raised / after that panic was caught
+                tags.append("leader-panic-unwinding" if kv.get("unwind") == "1" else "leader-panic-caught")
+            if kv.get("eclone") == "1" and what in ("err", "cancelled"):
+                tags.append("error-cloned")
         elif w[0] == "noop":
             tags.append("noop")
     return tags
 
 
 def nontrivial(case, lines, tags):
-    return any(t.startswith("waiter-") or t in ("leader-dropped", "leader-panic", "call-panic", "herd-run", "finish-run") for t in tags)
+    return any(t.startswith("waiter-") or t in ("leader-dropped", "leader-dropped-unwinding", "leader-panic", "call-panic", "herd-run", "finish-run") for t in tags)
 
 
 LEVEL_NOTE = ("Trusted: Lean kernel; the transcription of tokio's broadcast channel (a value sent before the sender is dropped stays "
@@ -744,14 +859,20 @@ LEVEL_NOTE = ("Trusted: Lean kernel; the transcription of tokio's broadcast chan
               "assumption is not proved, it is probed by the `manual herd` cases — a bounded search over real OS-thread schedules (with a timed "
               "rendezvous inside call() through the key type's Clone/Hash), exact oracles, no tolerance; a clean run is evidence only "
               "(notes/strengthen-C11-w3m2.md). The same for a completion: `manual finish` races arrivals with completions (and, through the "
-              "response type's destructor, makes them arrive inside one) — notes/strengthen-C11-w4.md.")
+              "response type's destructor, makes them arrive inside one) — notes/strengthen-C11-w4.md. Wave 5 "
+              "(notes/strengthen-coalesce-w5.md): futures destroyed WHILE a panic unwinds (`unwind=1`, generic in world.rs), construction "
+              "paths and several services per layer, clones of errors; OPEN FINDING: a panicking Clone of the leader's result leaves the key "
+              "registered for ever (service.rs: `registration.key.take()` precedes the clone) — reproduced by "
+              "corpus/coalesce/clone_panic_wedges_key.ops with VERIF_C11_CLONE_PANIC=1, the model specifies the conforming behaviour "
+              "(`clonePanic`), proposed repair notes/strengthen-coalesce-w5-proposed-repair.diff; the dimension is generated only with that switch.")
 
 SPECS = {
     "C11": {
         "group": "coalesce",
         "module": "TR.Props.C11",
         "gen": gen,
-        "corpus_filter": lambda c: REENTRANT_DROP or not any(o.startswith("manual ondrop") for o in c["ops"]),
+        "corpus_filter": lambda c: (REENTRANT_DROP or not any(o.startswith("manual ondrop") for o in c["ops"]))
+                                   and (CLONE_PANIC or not any("clonepanic=1" in o for o in c["ops"])),
         "monitors": [("c11-drop-overlap", mon_drop_overlap), ("c11-simultaneous-arrivals", mon_herd), ("c11-arrival-during-completion", mon_finish), ("c11-one-inflight-per-key", mon_inflight), ("c11-shared-result", mon_share), ("c11-prompt", mon_prompt)],
         "transitions": transitions,
         "nontrivial": nontrivial,
@@ -762,10 +883,14 @@ SPECS = {
                             "arrival-during-leader-drop-joined", "ondrop-second-thread",
                             "herd-run", "herd-gate-none", "herd-gate-clone", "herd-gate-hash", "herd-lookup-exclusive", "herd-several-keys",
                             "finish-run", "finish-gate-none", "finish-gate-drop", "finish-completion-exclusive", "finish-coalesced",
-                            "via-template", "via-swap", "via-readyclone", "sole-handle-overlap"],
+                            "via-template", "via-swap", "via-readyclone", "sole-handle-overlap",
+                            "leader-panic-unwinding", "leader-panic-caught", "leader-dropped-unwinding", "error-cloned",
+                            "ctor-new", "ctor-config", "ctor-confignew", "ctor-service",
+                            "service-even-from-layer", "service-odd-from-layer-clone", "other-service-leads-same-key"]
+                           + (["leader-clone-panic"] if CLONE_PANIC else []),
         "canon": canon,
-        "model_modules": ["TR.Model.Coalesce", "TR.Lemmas.Coalesce", "TR.Lemmas.CoalesceHandle", "TR.Lemmas.CoalesceHerd", "TR.Lemmas.CoalesceCaller", "TR.Mutants.CoalesceCallPanicWedges"],
-        "lean_files": ["TR.Model.Coalesce", "TR.Lemmas.Coalesce", "TR.Lemmas.CoalesceHandle", "TR.Lemmas.CoalesceHerd", "TR.Lemmas.CoalesceCaller"],
+        "model_modules": ["TR.Model.Coalesce", "TR.Lemmas.Coalesce", "TR.Lemmas.CoalesceHandle", "TR.Lemmas.CoalesceHerd", "TR.Lemmas.CoalesceCaller", "TR.Lemmas.CoalesceServices", "TR.Lemmas.CoalesceUnwind", "TR.Lemmas.CoalesceOnce", "TR.Mutants.CoalesceCallPanicWedges"],
+        "lean_files": ["TR.Model.Coalesce", "TR.Lemmas.Coalesce", "TR.Lemmas.CoalesceHandle", "TR.Lemmas.CoalesceHerd", "TR.Lemmas.CoalesceCaller", "TR.Lemmas.CoalesceServices", "TR.Lemmas.CoalesceUnwind", "TR.Lemmas.CoalesceOnce"],
         "sizes": (600, 30000),
         "rule": "seeded random op sequences (arrive key=../poll/drop/adv/settle) over 1..3 keys and 1..12 requests, 70% of them on one key, "
                 "inner latencies 0..40 ms with ok/err/panic/never, 12% of the arrivals with an inner call() that itself panics, advances biased to completion-1/completion/completion+1, leader and waiter "
@@ -782,7 +907,12 @@ SPECS = {
                 "response type's destructor; nothing dropped, nothing panics; oracle: every request gets the result of a call for its key "
                 "in flight while it was inside call(), never leader_cancelled); the callers reach the service through a clone per request "
                 "(50% of the cases always), through the one never-cloned handle (15% always), or through a mix of clone / template / "
-                "mem::replace / clone-of-a-readied-handle (`via=`); "
+                "mem::replace / clone-of-a-readied-handle (`via=`); the layer is built through builder / new / with_config / "
+                "CoalesceConfig::new or not at all (`ctor=`, 55% non-default); 40% of the cases use 2..4 services built lazily from the one "
+                "layer value or from clones of it (`svc=`), same keys on all of them; 65% of the cases have call futures owned by the "
+                "polling frame (`unwind=1` on 30..100% of their arrivals: a panicking poll destroys the future during the unwinding) and "
+                "drops caused by a panicking owner (`drop c unwind=1`); 25% of the callers look at a clone of their result (`eclone=1`); "
+                "with VERIF_C11_CLONE_PANIC=1 8% of the requests yield a value whose Clone panics (open finding, off by default); "
                 "distinct = distinct implementation event log; non-trivial = some waiter resolved, or a leader was dropped or panicked",
         "trusted": ["tokio broadcast / parking_lot Mutex / unwinding semantics as transcribed in TR.Model.Coalesce (sampled by the correspondence check)",
                     "harness: clock_gettime interposition, manual poller, scripted inner service", "python diff/monitors",
@@ -803,7 +933,11 @@ SPECS = {
                       "waiter_resolves_once_leader_gone, waiter_always_rearmed, handle_drop_only_stops_arrivals, handle_drop_preserves_outcomes, "
                       "handle_drop_time_irrelevant, handle_drop_unobservable, waiters_outlive_the_handle, request_during_leader_teardown, "
                       "dropOps_spec, simultaneous_arrivals_one_leader, no_cancellation_without_cause, arrival_during_completion_shares_or_leads, "
-                      "caller_mode_irrelevant}: for every operation sequence over any key space (all arrival, "
+                      "caller_mode_irrelevant, leader_panic_frees_key_at_once, leader_clone_panic_frees_key_at_once, "
+                      "panicked_leader_waiter_fails_at_next_poll, leader_completion_publishes, waiter_receives_leader_value, "
+                      "caller_behaviour_irrelevant, unwinding_drop_is_a_drop, at_most_one_result, result_unique, "
+                      "no_answer_while_pending_or_dropped, delivered_cancelled_exclusive, service_steps_are_independent, "
+                      "services_do_not_share, arrive_line_key}: for every operation sequence over any key space (all arrival, "
                       "completion, cancellation instants, all poll orders, ok/err/panic/never, panics inside inner.call() as well as in its "
                       "future) at most one inner call per key is in flight in every prefix of the log; a key is registered exactly while a "
                       "leader of it is alive; a request that finds its key registered makes no inner call and resolves only with its own "
@@ -813,6 +947,12 @@ SPECS = {
                       "but that later arrivals are impossible: the state reached is, field for field, that of the same sequence with its later "
                       "arrivals deleted, so outcomes do not depend on when (or whether) the handle is dropped, and a waiter of a live leader keeps "
                       "waiting. A request arriving while a dropped leader is torn down makes no inner call and fails with leader_cancelled. "
+                      "A leader whose poll panics (its inner call, or the Clone of the value it publishes) frees the key in that step and "
+                      "its waiters get leader_cancelled at their next poll — whether its future is destroyed during that unwinding or after "
+                      "the panic was caught is not a notion of the model (one answer for both). Every request is answered at most once; "
+                      "delivered and cancelled exclude each other for one inner call; a completing leader publishes exactly the value its "
+                      "waiters then receive. Services built from one layer value are the same model over the key space (service, key): an "
+                      "operation on one service leaves every table entry and all traffic of every other service unchanged. "
                       "All unconditional except that the three statements about an arrival assume a handle still exists. Proved by an inductive invariant over "
                       "the model; the model is tied to the real CoalesceLayer by line-for-line agreement of event logs on generated schedules.",
         "level_note": LEVEL_NOTE,
